@@ -51,6 +51,7 @@ type xlFunc struct {
 	RecFuel  string   // the function is recursive: LEAN expression over its parameters bounding the recursion depth (fuel of `<Lean>_rec`)
 	RecGroup string   // mutually recursive functions (consecutive whitelist entries with the same group) are emitted in one `mutual` block
 	External string   // already emitted in another generated file under this qualified Lean name: translated for the call interface only
+	Plain    bool     // `interface{}` is a PLAIN Go value (`Val`: scalar / []interface{} / map[string]interface{}) — the codec side; otherwise it is a leaf's value (`Scalar`)
 	Dispatch string   // synthetic entry (translate_dispatch.go): the dynamic dispatch of the interface method dom.<Dispatch>.<Name> on the implementations
 }
 
